@@ -241,7 +241,7 @@ CHECKS = {
         "rule": ("kinds group (timelines: 1-5 registrations, 0-12 trigger events incl. concurrent bursts, one stop incl. parent cancel/deadline), stop-storm (goroutines keep calling Do while the group is stopped, 5-30 rounds per case), "
                  "trigger-first-call (racing first calls of a trigger function, then triggers during runs), trigger-storm (a trigger 0-256 busy iterations after a run has finished, 1000-5000 rounds per case, decided at quiescence; or 3-4 callers pacing themselves around the end of every run: runs never overlap), pot-old-timers (PeriodicOrTrigger under asynctimerchan=1 on the real clock), pot-trigger-real (real clock, interval 1 h: the second trigger of every round is aimed at the end of the run the first one started; a run begins after it within 3 s). group plans: non-trivial = a trigger call landed while its function was running, or a registration raced with the stop; distinct = distinct plan JSON; R=3/10"),
         "assumptions": ["testing/synctest", "rapid v1.3.0; go1.26.8"],
-        "jobs": [{"pkg": "c17old", "kinds": ["pot-old-timers", "pot-trigger-real"], "scale_thorough": 4, "shards_thorough": 4},
+        "jobs": [{"pkg": "c17old", "kinds": ["pot-old-timers", "pot-trigger-real", "stop-reentrant", "group-dropped"], "scale_thorough": 4, "shards_thorough": 4},
                  {"pkg": "c17group", "kinds": ["group", "stop-storm", "trigger-first-call", "trigger-storm"], "scale_thorough": 3, "shards_thorough": 16, "replay_reps": 30},
                  {"pkg": "c17group", "goarch": "386", "kinds": ["group", "stop-storm", "trigger-first-call", "trigger-storm"], "scale_quick": 0.1, "scale_thorough": 1, "shards_thorough": 2},
                  {"pkg": "c17group", "race": True, "kinds": ["group", "stop-storm", "trigger-first-call", "trigger-storm"], "scale_quick": 0.15, "scale_thorough": 1, "shards_thorough": 4, "replay_reps": 20}],
